@@ -100,6 +100,16 @@ CHECKS = {
              'handles deleted while in use must still correct a device) are checked against an abstract table and the model answers every line it models identically.',
         note='Lean kernel + standard axioms; Model/CalTable.lean hand-written (the first_free invariant of the C is a hypothesis of alloc_fresh); numerics of solve are not part of this model.',
         ref='DESIGN.md §6 C16'),
+    'C19': dict(
+        technique='Lean 4 proof (partial: recurrences => factorisation => solve, determinant, zero pivot <=> singular) + numeric residual oracle in extended precision + factor check on the C output',
+        text='For every n and field: entries satisfying the Crout recurrences give L U = P A; the two substitution recurrences give A X = B; the accumulated '
+             'determinant is det A; an exactly zero pivot means det A = 0 and non-zero pivots mean A is non-singular. The C kernels are run on random, row-permuted, '
+             'row-scaled (1e-8..1e8), graded, column-scaled, integer and exactly singular systems and tall least-squares systems: row-wise relative residual <= 1e-10 '
+             '(scale invariant), normal-equation residual, singular inputs non-finite or astronomically large (also through ztoyn/ytozn), and the factors returned by '
+             '_vnacommon_lu satisfy L U = P A with det = det A (the hypotheses of the theorems).',
+        note='PARTIAL: that the imperative in-place loops with row swaps establish the recurrences is not proved (tied by the correspondence run of Model/LinAlg.lean and the '
+             'factor check only); backward stability is a floating-point statement and is measured, not proved; QR is only exercised numerically.',
+        ref='DESIGN.md §6 C19'),
 }
 PENDING = {}
 ALL = ['C%02d' % i for i in range(1, 21)]
